@@ -682,6 +682,9 @@ fn reopened(scheds: &[Vec<usize>]) -> bool {
 }
 
 fn describe_k(ctx: &mut Ctx, kc: &KCase) {
+    if kc.silent {
+        ctx.count("extreme_correspondence_only");
+    }
     ctx.count(if kc.yen { "alg_yen" } else { "alg_single_via" });
     ctx.count(match kc.base.astar {
         None => "underlying_dijkstra",
@@ -2956,5 +2959,5 @@ pub fn run(ctx: &mut Ctx) -> &'static str {
     run_yen_batch(ctx, yen_items);
     run_kterm(ctx, ctx.n(300, 6000));
     run_ksim(ctx, ctx.n(500, 10000));
-    "diamond chains, grids, ladders, spur paths and random digraphs with tie-heavy / generic / metric lengths; single-via and Yen (Yen only in child processes under a 1 GiB address-space limit and a 2 s timeout); k = 0..6 from configuration and from the query (also non-integer); AcceptAll (explicit and default), edge-id and distance-weighted cosine thresholds; Exact / MaxIteration / Factor; Dijkstra and A* underlying; vertex and edge orientation; turn delays, turn restrictions, other frontier models and termination limits; non-trivial = successful query returning at least two routes, distinct by full output"
+    "diamond chains, grids, ladders, spur paths and random digraphs with tie-heavy / generic / metric lengths; single-via and Yen (Yen only in child processes under a 1 GiB address-space limit and a 2 s timeout); k = 0..6 from configuration and from the query (also non-integer); AcceptAll (explicit and default), edge-id and distance-weighted cosine thresholds; Exact / MaxIteration / Factor; Dijkstra and A* underlying; vertex and edge orientation; turn delays, turn restrictions, other frontier models and termination limits; non-trivial = successful query returning at least two routes, distinct by full output; one generated single-via case in eight (constructed in code) is pushed into a region the generators never reach (searchprops::shape_extreme: out-of-range coordinates, zero lengths and speeds with the oracles on; 0, -0, negative, 1e308, +-inf, NaN, subnormal numbers and extreme limits as correspondence-only cases, the oracles silent)"
 }
